@@ -15,21 +15,24 @@ Record bstate := {
   lt_of : nat;       (* version of the metric whose factor LTinv currently is *)
   bk_minv : nat;     (* backup: metric version at the last save *)
   bk_lt : nat;       (* backup: factor version at the last save *)
+  refp : nat;        (* version of the reference pair (m, g) the next update takes its differences from *)
+  bk_ref : nat;      (* backup: reference pair at the last save *)
   fresh : nat
 }.
 
-Definition binit : bstate := {| minv := 0; lt_of := 0; bk_minv := 0; bk_lt := 0; fresh := 1 |}.
+Definition binit : bstate := {| minv := 0; lt_of := 0; bk_minv := 0; bk_lt := 0; refp := 0; bk_ref := 0; fresh := 1 |}.
 
 Definition bstep (s : bstate) (o : bop) : bstate :=
   match o with
   | Update pos ok =>
       let cand := if pos then fresh s else minv s in
-      let fr := if pos then S (fresh s) else fresh s in
-      if ok then {| minv := cand; lt_of := cand; bk_minv := bk_minv s; bk_lt := bk_lt s; fresh := fr |}
-      else (* LinAlgError: metric restored to its value before this update, factor untouched *)
-        {| minv := minv s; lt_of := lt_of s; bk_minv := bk_minv s; bk_lt := bk_lt s; fresh := fr |}
-  | Accept => {| minv := minv s; lt_of := lt_of s; bk_minv := minv s; bk_lt := lt_of s; fresh := fresh s |}
-  | Reject => {| minv := bk_minv s; lt_of := bk_lt s; bk_minv := bk_minv s; bk_lt := bk_lt s; fresh := fresh s |}
+      let fr := S (fresh s) in
+      (* every update moves the reference pair to the point it was called with, curvature or not *)
+      if ok then {| minv := cand; lt_of := cand; bk_minv := bk_minv s; bk_lt := bk_lt s; refp := fresh s; bk_ref := bk_ref s; fresh := fr |}
+      else (* LinAlgError: metric and reference pair restored to their values before this update, factor untouched *)
+        {| minv := minv s; lt_of := lt_of s; bk_minv := bk_minv s; bk_lt := bk_lt s; refp := refp s; bk_ref := bk_ref s; fresh := fr |}
+  | Accept => {| minv := minv s; lt_of := lt_of s; bk_minv := minv s; bk_lt := lt_of s; refp := refp s; bk_ref := refp s; fresh := fresh s |}
+  | Reject => {| minv := bk_minv s; lt_of := bk_lt s; bk_minv := bk_minv s; bk_lt := bk_lt s; refp := bk_ref s; bk_ref := bk_ref s; fresh := fresh s |}
   end.
 
 Definition brun (ops : list bop) : bstate := fold_left bstep ops binit.
